@@ -254,6 +254,7 @@ esl_msafile_psiblast_Read(ESL_MSAFILE *afp, ESL_MSA **ret_msa)
 	if (idx >= msa->sqalloc &&  (status = esl_msa_Expand(msa))                   != eslOK) goto ERROR;
 	if ( (status = esl_msa_SetSeqName(msa, idx, afp->line+name_start, name_len)) != eslOK) goto ERROR;
       } else {
+	if (idx >= nseq) ESL_XFAIL(eslEFORMAT, afp->errmsg, "block contains more seqs than earlier blocks did");
 	if (! esl_memstrcmp(afp->line+name_start, name_len, msa->sqname[idx]))
 	  ESL_XFAIL(eslEFORMAT, afp->errmsg, "expected sequence %s on this line, but saw %.*s", msa->sqname[idx], (int) name_len, afp->line+name_start);
       }
